@@ -1107,6 +1107,10 @@ func (s *sim) crashDuringOp() {
 	pre := s.m.snapshot()
 	floor := s.durableFloor
 	cfs := s.p.cfs
+	if s.c.Bubble {
+		// background work of earlier operations (WAL flush, table writes) must not leak into the counted window
+		synctest.Wait()
+	}
 	cfs.arm(targets, pct)
 	switch kind {
 	case "commit", "commit-big", "commit-deletes":
